@@ -207,3 +207,72 @@ def runs(cells):
         else:
             out.append([a, 1])
     return [(a, n) for a, n in out]
+
+
+# ----------------------------------------------------------------------------- byte-stream mutation / chunking
+MUT_BYTES = [0x00, 0xFF, 0x7B, 0x7D, 0x0D, 0x0A, 0x3A, 0x30, 0x41, 0x46, 0x61, 0x66, 0x47, 0x20, 0x2B, 0x2D, 0x5F, 0x78, 0x58]
+
+
+def mutation():
+    """one mutation op as JSON: ['flip', pos%, bit] | ['sub', pos%, byte] | ['del', pos%, n] | ['ins', pos%, hex] | ['trunc', pos%] | ['ext', hex]
+    positions are given as integers reduced modulo the current length when applied."""
+    pos = st.integers(0, 4000)
+    byte = st.one_of(st.sampled_from(MUT_BYTES), st.integers(0, 255))
+    return st.one_of(
+        st.tuples(st.just('flip'), pos, st.integers(0, 7)),
+        st.tuples(st.just('sub'), pos, byte),
+        st.tuples(st.just('del'), pos, st.integers(1, 3)),
+        st.tuples(st.just('ins'), pos, st.binary(min_size=1, max_size=4).map(lambda b: b.hex())),
+        st.tuples(st.just('trunc'), pos),
+        st.tuples(st.just('ext'), st.binary(min_size=1, max_size=6).map(lambda b: b.hex())),
+        st.tuples(st.just('burst'), pos, st.integers(1, 0xFFFF)),
+    ).map(list)
+
+
+def apply_mutations(data, muts):
+    b = bytearray(data)
+    for m in muts:
+        if m[0] == 'ext':
+            b.extend(bytes.fromhex(m[1]))
+            continue
+        if not b:
+            continue
+        p = m[1] % len(b)
+        if m[0] == 'flip':
+            b[p] ^= 1 << m[2]
+        elif m[0] == 'sub':
+            b[p] = m[2]
+        elif m[0] == 'del':
+            del b[p:p + m[2]]
+        elif m[0] == 'ins':
+            b[p:p] = bytes.fromhex(m[2])
+        elif m[0] == 'trunc':
+            del b[p:]
+        elif m[0] == 'burst':
+            # XOR a 16-bit error pattern starting at bit 0 of byte p (burst of <= 16 bits)
+            b[p] ^= (m[2] >> 8) & 0xFF
+            if p + 1 < len(b):
+                b[p + 1] ^= m[2] & 0xFF
+    return bytes(b)
+
+
+def cuts():
+    """chunking description: ['whole'] | ['every', k] | ['at', [offsets...]] (offsets reduced modulo length+1)"""
+    return st.one_of(st.just(['whole']), st.tuples(st.just('every'), st.integers(1, 9)).map(list),
+                     st.tuples(st.just('at'), st.lists(st.integers(0, 4000), min_size=1, max_size=8)).map(list),
+                     st.tuples(st.just('at'), st.lists(st.integers(0, 12), min_size=1, max_size=4)).map(list))
+
+
+def apply_cuts(data, cut):
+    if cut[0] == 'whole' or not data:
+        return [data] if data else []
+    if cut[0] == 'every':
+        k = cut[1]
+        return [data[i:i + k] for i in range(0, len(data), k)]
+    offs = sorted(set(o % (len(data) + 1) for o in cut[1]))
+    out, prev = [], 0
+    for o in offs:
+        out.append(data[prev:o])     # may be empty: an empty read
+        prev = o
+    out.append(data[prev:])
+    return out
